@@ -190,6 +190,18 @@ class Shape:
             else:
                 yield it
 
+    def numel_term(self):
+        """z3 Int that is > 0 iff all dims are > 0 (abstract product; only its sign is meaningful)."""
+        pos = []
+        for i in self.items:
+            if isinstance(i, Star):
+                pos.append(z3.Int(f"numel_{i.tag}") > 0)
+            else:
+                pos.append(num(i) > 0)
+        if not pos:
+            return z3.IntVal(1)
+        return z3.If(z3.And(*pos), z3.IntVal(1), z3.IntVal(0))
+
     def ndim(self):
         fixed = sum(1 for i in self.items if not isinstance(i, Star))
         stars = [i for i in self.items if isinstance(i, Star)]
@@ -352,6 +364,8 @@ def tag_of_term(z):
 class T:
     """Symbolic tensor (see module docstring)."""
 
+    _is_symbolic_tensor = True
+
     def __init__(self, f, dtype, tlen=None, taxis=None, eshape=None, nan=None, is_param=False, name=None, uninit=False):
         self.f = f
         self.dtype = tag_of(dtype)
@@ -365,6 +379,7 @@ class T:
         self.requires_grad = False
         self.device = "cpu"
         self.layout = "strided"
+        self.pure_time = False  # 1-D tensor that has only the time axis (e.g. arange)
 
     # -- basics
     def __repr__(self):
@@ -427,9 +442,17 @@ class T:
         return self.shape[d]
 
     def numel(self):
+        """Exact for truthiness (the only use in the verified code): numel > 0 iff every dim > 0."""
         if getattr(self, "_numel", None) is not None:
             return self._numel
-        return SV(z3.Int(f"numel_{self.name}"))
+        es = self.eshape
+        if es is None:
+            e = z3.Int(f"numel_shape_{self.name}")
+        else:
+            e = es.numel_term()
+        if self.tlen is None:
+            return wrap(e)
+        return wrap(z3.If(z3.And(num(self.tlen) > 0, e > 0), num(self.tlen) + e - 1, z3.IntVal(0)))
 
     # -- element-wise machinery
     def _lift(self, other):
@@ -443,18 +466,28 @@ class T:
                 return a.tlen, a.taxis, a.f, (lambda t: b.f), a.nan, b.nan, b.dtype
             if a.tlen is None and b.tlen is not None:
                 return b.tlen, b.taxis, (lambda t: a.f), b.f, a.nan, b.nan, b.dtype
-            if a.taxis != b.taxis:
+            ax = a.taxis
+            if a.pure_time and not b.pure_time:
+                # a 1-D tensor broadcasts against the LAST dimension
+                if b.taxis != "last":
+                    raise Unsupported("1-D tensor broadcast against a time-first tensor")
+                ax = "last"
+            elif b.pure_time and not a.pure_time:
+                if a.taxis != "last":
+                    raise Unsupported("1-D tensor broadcast against a time-first tensor")
+                ax = "last"
+            elif a.taxis != b.taxis:
                 raise Unsupported("element-wise op between time-first and time-last tensors")
             la, lb = a.tlen, b.tlen
             if _same_len(la, lb):
-                return la, a.taxis, a.f, b.f, a.nan, b.nan, b.dtype
+                return la, ax, a.f, b.f, a.nan, b.nan, b.dtype
             if _is_one(la):
-                return lb, a.taxis, (lambda t: a.f(z3.IntVal(0))), b.f, _nan_bcast(a.nan), b.nan, b.dtype
+                return lb, ax, (lambda t: a.f(z3.IntVal(0))), b.f, _nan_bcast(a.nan), b.nan, b.dtype
             if _is_one(lb):
-                return la, a.taxis, a.f, (lambda t: b.f(z3.IntVal(0))), a.nan, _nan_bcast(b.nan), b.dtype
+                return la, ax, a.f, (lambda t: b.f(z3.IntVal(0))), a.nan, _nan_bcast(b.nan), b.dtype
             ex = Explorer.current
             if ex is not None and ex.implied(num(la) == num(lb)):
-                return la, a.taxis, a.f, b.f, a.nan, b.nan, b.dtype
+                return la, ax, a.f, b.f, a.nan, b.nan, b.dtype
             raise Unsupported("element-wise op between time axes of different length")
         # python / symbolic scalar
         zb = num(other) if not (isinstance(other, SV) and other.is_bool) and not isinstance(other, bool) else as_bool(other)
@@ -534,6 +567,7 @@ class T:
             r = T(out_f(None), rt, None, None, _merge_eshape(self, other), out_nan(None) if out_nan else None)
         else:
             r = T(out_f, rt, tlen, taxis, _merge_eshape(self, other), out_nan)
+        r.pure_time = self.pure_time and (not isinstance(other, T) or other.pure_time)
         return r
 
     # arithmetic
@@ -649,7 +683,9 @@ class T:
         if self.tlen is None:
             return T(fn(self.f), dtype, None, None, self.eshape, self.nan if nan == "same" else nan)
         f = self.f
-        return T(lambda t: fn(f(t)), dtype, self.tlen, self.taxis, self.eshape, self.nan if nan == "same" else nan)
+        r = T(lambda t: fn(f(t)), dtype, self.tlen, self.taxis, self.eshape, self.nan if nan == "same" else nan)
+        r.pure_time = self.pure_time
+        return r
 
     # -- conversions
     def to(self, *args, dtype=None, device=None, **kw):
@@ -877,6 +913,9 @@ class T:
         s, L, f = num(shifts), num(self.tlen), self.f
         from .sym import pymod_int
 
+        ex = cur()
+        if not ex.implied(L > 0):
+            raise Unsupported("roll on a possibly empty time axis")
         return T(lambda t: f(pymod_int(t - s, L)), self.dtype, self.tlen, "first", self.eshape)
 
     def flip(self, *dims):
@@ -952,7 +991,7 @@ class T:
                 raise Unsupported("boolean mask indexing")
             if k.tlen is None:
                 raise Unsupported("index tensor without time axis")
-            if getattr(k, "pure_time", False):
+            if k.pure_time:
                 # 1-D index tensor: data[indices, ...]
                 kf = k.f
                 cur().obligation("index_in_bounds", _forall_t(k.tlen, lambda t: z3.And(kf(t) >= 0, kf(t) < L)))
@@ -981,33 +1020,13 @@ class T:
         if isinstance(k, slice) or k is Ellipsis:
             raise Unsupported("slice assignment")
         if isinstance(k, T):
-            if not getattr(k, "pure_time", False):
+            if not k.pure_time:
                 raise Unsupported("advanced index assignment with a non-1D index tensor")
-            kf, kl = k.f, num(k.tlen)
-            cur().obligation("index_in_bounds", _forall_t(k.tlen, lambda t: z3.And(kf(t) >= 0, kf(t) < L)))
             if not isinstance(value, T) or value.tlen is None or value.taxis != "first":
                 raise Unsupported("index assignment value")
-            vf = value.f
-            # data[idx[j]] = value[j]; last write wins; require distinct indices (determinism obligation)
-            j1, j2 = z3.Int(cur().fresh_name("j1")), z3.Int(cur().fresh_name("j2"))
-            cur().obligation(
-                "index_put_deterministic",
-                z3.Implies(z3.And(0 <= j1, j1 < kl, 0 <= j2, j2 < kl, kf(j1) == kf(j2)), z3.Or(j1 == j2, vf(j1) == vf(j2))),
-            )
-            w = z3.Function(cur().fresh_name("putw"), z3.IntSort(), z3.IntSort())
-            hit = lambda p: z3.And(0 <= w(p), w(p) < kl, kf(w(p)) == p)  # noqa
-            self._scatter_axioms = getattr(self, "_scatter_axioms", [])
-            jj = z3.Int(cur().fresh_name("jq"))
-            pp = z3.Int(cur().fresh_name("pq"))
-            cur().assume(z3.ForAll([jj], z3.Implies(z3.And(0 <= jj, jj < kl), hit(kf(jj))), patterns=[kf(jj)] if not z3.is_var(kf(jj)) and z3.is_app(kf(jj)) and kf(jj).num_args() > 0 else []))
-            cur().assume(
-                z3.ForAll(
-                    [jj],
-                    z3.Implies(z3.And(0 <= jj, jj < kl), vf(w(kf(jj))) == vf(jj)),
-                )
-            ) if False else None
-            self.f = lambda t: z3.If(hit(t), coerce(vf(w(t)), tag), f(t))
-            self._last_put = (w, kf, kl, vf)
+            # data[idx[j], ...] = value[j, ...]  == scatter along dim 0 with an index that is the same for every element
+            r = _put(self, k.f, num(k.tlen), value.f, value.dtype, "index_put")
+            self.f = r
             return
         i = num(py_index(k))
         ex = cur()
@@ -1110,8 +1129,9 @@ def _norm_bound(b, L, default_lo):
 
 
 def _forall_t(tlen, body):
+    """forall t in [0, tlen): body(t)  as a proof GOAL: Skolemised with a fresh constant (valid iff the forall is)."""
     t = z3.Int(cur().fresh_name("tq"))
-    return z3.ForAll([t], z3.Implies(z3.And(t >= 0, t < num(tlen)), body(t)))
+    return z3.Implies(z3.And(t >= 0, t < num(tlen)), body(t))
 
 
 def _div_guard(o):
@@ -1126,16 +1146,16 @@ def _full_reduce(x, what):
         r.scalar_like = True
         r.reduced_from = (what, x)
         return r
-    # reduction over elements and time: represented by an uninterpreted bound with its defining property
+    # reduction over elements and time: an uninterpreted bound constrained at the time points we can name
     ex = cur()
     name = ex.fresh_name(what)
     v = z3.Real(name) if x.dtype == "float" else z3.Int(name)
-    t = z3.Int(ex.fresh_name("tq"))
     f = x.f
-    if what == "amin":
-        ex.assume(z3.ForAll([t], z3.Implies(z3.And(t >= 0, t < num(x.tlen)), v <= f(t))))
-    else:
-        ex.assume(z3.ForAll([t], z3.Implies(z3.And(t >= 0, t < num(x.tlen)), v >= f(t))))
+    tl = x.tlen
+    if not isinstance(tl, int) or tl > 8:
+        raise Unsupported("full reduction over a symbolic-length time axis")
+    for i in range(tl):
+        ex.assume(v <= f(z3.IntVal(i)) if what == "amin" else v >= f(z3.IntVal(i)))
     r = T(v, x.dtype, None, None, Shape(()))
     r.scalar_like = True
     r.reduced_from = (what, x)
@@ -1314,7 +1334,7 @@ def arange(*args, dtype=None, device=None, **kw):
         raise Unsupported("arange with step")
     zlo = num(lo)
     n = wrap(num(hi) - zlo)
-    r = T(lambda t: zlo + t, "int" if dtype is None else tag_of(dtype), n, "last", Shape(()))
+    r = T(lambda t: zlo + t, "int" if dtype is None else tag_of(dtype), n, "first", Shape(()))
     r.pure_time = True
     return r
 
@@ -1327,7 +1347,7 @@ def gather(x, dim, index):
     if index.dtype != "int":
         raise SymRaise("RuntimeError", "gather(): Expected dtype int64 for index")
     L, f, kf = num(x.tlen), x.f, index.f
-    cur().obligation("gather_index_in_bounds", _forall_t(index.tlen, lambda t: z3.And(kf(t) >= 0, kf(t) < L)))
+    cur().obligation("gather_index_in_bounds", _forall_t(index.tlen, lambda t: z3.And(kf(t) >= 0, kf(t) < L)))  # Skolemised
     return T(lambda t: f(kf(t)), x.dtype, index.tlen, "first", x.eshape)
 
 
@@ -1342,26 +1362,66 @@ def scatter(x, dim, index, src):
         raise SymRaise("RuntimeError", "scatter(): Expected dtype int64 for index")
     if src.dtype != x.dtype:
         raise SymRaise("RuntimeError", "scatter(): Expected self.dtype to be equal to src.dtype")
-    ex = cur()
-    L, f, kf, kl, vf = num(x.tlen), x.f, index.f, num(index.tlen), src.f
-    ex.obligation("scatter_index_in_bounds", _forall_t(index.tlen, lambda t: z3.And(kf(t) >= 0, kf(t) < L)))
-    j1, j2 = z3.Int(ex.fresh_name("j1")), z3.Int(ex.fresh_name("j2"))
-    # torch.scatter is nondeterministic for duplicate indices unless the sources agree
-    ex.obligation(
-        "scatter_deterministic",
-        z3.Implies(z3.And(0 <= j1, j1 < kl, 0 <= j2, j2 < kl, kf(j1) == kf(j2)), z3.Or(j1 == j2, vf(j1) == vf(j2))),
-    )
-    w = z3.Function(ex.fresh_name("scw"), z3.IntSort(), z3.IntSort())
-
-    def hit(p):
-        return z3.And(0 <= w(p), w(p) < kl, kf(w(p)) == p)
-
-    jj = z3.Int(ex.fresh_name("jq"))
-    # every written position is hit (Skolem witness w); instantiated by the solver through the pattern-free MBQI
-    ex.assume(z3.ForAll([jj], z3.Implies(z3.And(0 <= jj, jj < kl), hit(kf(jj)))))
-    r = T(lambda t: z3.If(hit(t), vf(w(t)), f(t)), x.dtype, x.tlen, "first", x.eshape)
-    r._scatter = (w, kf, kl, vf)
+    r = T(_put(x, index.f, num(index.tlen), src.f, src.dtype, "scatter"), x.dtype, x.tlen, "first", x.eshape)
     return r
+
+
+def _put(x, kf, kl, vf, vtag, label):
+    """Functional update  x[kf(j)] := vf(j)  for j in [0, kl)  along the time axis (at the fixed element eps).
+
+    Safety obligations: indices in bounds; duplicate indices carry equal sources (torch leaves the winner
+    unspecified otherwise).  The result is quantifier free:
+      * concrete small kl: explicit expansion;
+      * symbolic kl: the index function must be *invertible* -- the executor proves on the spot (two Skolemised
+        lemma queries) that  inv(p) = (s*(p - kf(0))) mod len  is a two-sided inverse of kf on [0, kl) for
+        s = +1 or -1 (affine ring indices), which makes kf injective and gives
+            x'(p) = inv(p) < kl ? vf(inv(p)) : x(p).
+    """
+    from .sym import smod
+
+    ex = cur()
+    L, f, tag = num(x.tlen), x.f, x.dtype
+    t0 = z3.Int(ex.fresh_name("tq"))
+    ex.obligation(label + "_index_in_bounds", z3.Implies(z3.And(t0 >= 0, t0 < kl), z3.And(kf(t0) >= 0, kf(t0) < L)))
+    klv = z3.simplify(kl) if z3.is_expr(kl) else z3.IntVal(kl)
+    if z3.is_int_value(klv) and klv.as_long() <= 8:
+        n = klv.as_long()
+        ks = [kf(z3.IntVal(j)) for j in range(n)]
+        vs = [coerce(vf(z3.IntVal(j)), tag) for j in range(n)]
+        for i in range(n):
+            for j in range(i + 1, n):
+                ex.obligation(label + "_deterministic", z3.Implies(ks[i] == ks[j], vs[i] == vs[j]))
+
+        def g(t):
+            r = f(t)
+            for j in range(n):
+                r = z3.If(t == ks[j], vs[j], r)
+            return r
+
+        return g
+    if not ex.implied(L > 0):
+        raise Unsupported("scatter into a possibly empty time axis")
+    base = kf(z3.IntVal(0))
+    for sgn in (1, -1):
+        def inv(p, sgn=sgn):
+            return smod(sgn * (p - base), L)
+
+        j0 = z3.Int(ex.fresh_name("j0"))
+        p0 = z3.Int(ex.fresh_name("p0"))
+        left = ex.prove([j0 >= 0, j0 < kl], lambda: inv(kf(j0)) == j0)
+        if not left:
+            continue
+        right = ex.prove([p0 >= 0, p0 < L], lambda: z3.Implies(inv(p0) < kl, kf(inv(p0)) == p0))
+        if not right:
+            continue
+        ex.notes.append(f"{label}: index inverted with sign {sgn}")
+
+        def g(t, inv=inv):
+            it = inv(t)
+            return z3.If(z3.And(t >= 0, t < L, it < kl), coerce(vf(it), tag), f(t))
+
+        return g
+    raise Unsupported(f"{label} with a symbolic-length index that the executor could not invert")
 
 
 def full(shape, fill, dtype=None, **kw):
